@@ -1,6 +1,7 @@
 import Setec.Spec.DBMon
 import Setec.Proofs.KV
 import Setec.Generated.Facts
+import Setec.Proofs.MonitorsSound
 /-!
 # C01 - no operation takes effect or reveals data without a matching ACL grant
 
@@ -137,5 +138,16 @@ theorem monitor_denied_noeffect (kv : KV) (c : Caller) (op : Op) (aok sok : Bool
 hypotheses of `denied_no_effect` are satisfiable. -/
 example : granted { principal := "p", rules := [{ actions := ["get"], secrets := ["dev/*".toList] }] }
     (actionOf (.put "dev/x" [1])) (nameOf (.put "dev/x" [1])) = false := by decide
+
+/-! ### the monitor clauses are the specification's own behaviour -/
+
+/-- The two C01 clauses the driver evaluates on the real code's answers - an ungranted call is
+refused with access-denied and changes nothing; whatever is disclosed or changed was granted -
+hold of the specification's own step, for every state, caller, operation and oracle choice:
+they demand nothing the model does not do. -/
+theorem monitors_sound (kv : KV) (c : Caller) (op : Op) (aok sok : Bool) :
+    c01_denied_noeffect (MonSound.obsOf kv c op aok sok) = true ∧
+    c01_effect_only_if_granted (MonSound.obsOf kv c op aok sok) = true :=
+  ⟨MonSound.c01_denied_noeffect_sound kv c op aok sok, MonSound.c01_effect_only_if_granted_sound kv c op aok sok⟩
 
 end Setec.C01
